@@ -142,5 +142,46 @@ func C05(c *Ctx) {
 				c.Fail("x=0 with sign bit does not re-encode canonically", map[string]any{"input": hx(sb), "want": hx(want[:])})
 			}
 		}
+		// (d) a long-lived object: encoded, then given new values through every assigning method
+		// in turn; each time both encoders must describe the value it holds NOW
+		if i%2 == 1 {
+			start := r.Point()
+			if start.P != nil {
+				obj := start.P
+				var hist []string
+				obj.Bytes()
+				obj.BytesMontgomery()
+				for k := 0; k < 4; k++ {
+					tm := m
+					if k%2 == 1 {
+						tm, _ = r.ModelPoint()
+					}
+					how := reassign(r, obj, tm, int(i/2)+k*3)
+					if how == "" {
+						continue
+					}
+					hist = append(hist, how)
+					te := ref.Encode(tm)
+					tu := ref.Montgomery(tm)
+					got, gotU := obj.Bytes(), obj.BytesMontgomery()
+					c.Eval(true, te[:], []byte("long-lived"), []byte(how))
+					c.Tally("long-lived object re-encoded after " + assignKey(how))
+					if string(got) != string(te[:]) || string(gotU) != string(tu[:]) {
+						c.Fail("an object that was encoded before and then given a new value encodes as something else", map[string]any{"assignments": hist, "want": hx(te[:]), "got": hx(got), "want-u": hx(tu[:]), "got-u": hx(gotU), "first-value": ptHex(start.M)})
+						break
+					}
+				}
+			}
+		}
 	}
+}
+
+// assignKey strips the operand description from a reassign description.
+func assignKey(how string) string {
+	for i := 0; i < len(how); i++ {
+		if how[i] == '(' {
+			return how[:i]
+		}
+	}
+	return how
 }
